@@ -33,6 +33,8 @@ def ctl_position(v):
 
 
 def lock_range(v):
+    """Lock Control TLV: Size is the number of lock BITS (0 = 256); the lock area is the bytes that hold them, i.e. a
+    partially used last byte belongs to it: ceil(bits / 8) bytes"""
     bits = v[1] if v[1] else 256
     s = ctl_position(v)
     return range(s, s + (bits + 7) // 8)
@@ -71,6 +73,7 @@ class Ref(object):
     free = None            # non reserved addresses from offset to the end of the data area
     capacity = None
     tlvs = None            # [(T, address)]
+    ranges = None          # [(kind "lock"|"mem", first address, number of bytes)] declared by the control TLVs read
     prior_spans = False    # a TLV in front of the NDEF TLV has a value that jumps over reserved bytes
 
     def __repr__(self):
@@ -81,6 +84,7 @@ def ref_read(mem, hr0, block_f=True, limit=2048):
     """NDEF detection + read on a raw memory image, following the specification's procedure"""
     r = Ref()
     r.tlvs = []
+    r.ranges = []
     if hr0 >> 4 != 1:
         r.status = "proprietary"
         return r
@@ -153,6 +157,7 @@ def ref_read(mem, hr0, block_f=True, limit=2048):
                 if ln != 3:
                     raise Bad("control TLV with length %d" % ln)
                 rng_ = lock_range(val) if t == LOCK_T else mem_range(val)
+                r.ranges.append(("lock" if t == LOCK_T else "mem", rng_.start, len(rng_)))
                 reserved.update(x for x in rng_ if x < limit)
             elif t == NDEF_T:
                 r.status = "ndef"
